@@ -25,7 +25,7 @@ ID, ap, d0, d1, tests, cq, ct, buckets, NAME = sys.argv[1:10]
 prop = [json.loads(l) for l in open('/verif/properties.jsonl') if json.loads(l)['id'] == ID][0]
 notes = open(f'/verif/seeded/{NAME}/notes.md').read() if __import__('os').path.exists(f'/verif/seeded/{NAME}/notes.md') else ''
 meta = {
-  "property": ID, "title": prop["title"],
+  "property": ID, "title": prop["title"], "base_commit": __import__('os').environ.get("BASE") or __import__('subprocess').run(["git","-C","/repo","rev-parse","--short","HEAD"],capture_output=True,text=True).stdout.strip(),
   "origin": "independent sub-agent given only the property text and a scratch worktree",
   "needs_to_manifest": notes[:1500],
   "confirmed": {"patch_applies": ap == "0", "demo_exit_unchanged_tree": int(d0), "demo_exit_with_change": int(d1), "repository_tests_with_change": tests,
